@@ -51,10 +51,20 @@ class _Renamer(ast.NodeTransformer):
         return ast.copy_location(ast.arg(arg=self._n(node.arg), annotation=None), node)
 
 
+# names that are NOT local variables of the functions whose shape is checked (module globals and
+# builtins they use); every other name is alpha-renamed, wherever it is bound (a walrus inside a
+# hole binds a local that is only *read* in the rest of the body)
+GLOBAL_NAMES = {
+    "ConfigSource", "object", "shlex", "warn", "get_solver_command", "RuntimeError", "arg_parser",
+    "parse_devdoc", "parse_natspec", "vars", "default_config", "resolve_config_files", "toml_parser",
+    "os", "sys", "error", "None", "True", "False",
+}
+
+
 def local_names(fn):
     out = {a.arg for a in fn.args.args}
     for n in ast.walk(fn):
-        if isinstance(n, ast.Name) and isinstance(n.ctx, ast.Store):
+        if isinstance(n, ast.Name) and n.id not in GLOBAL_NAMES:
             out.add(n.id)
     return out
 
